@@ -392,7 +392,7 @@ def unresolved_names(diags):
             # the helper's name is taken from the source line the error points at
             for sp in d.get('spans', []):
                 for t in sp.get('text', []):
-                    for m2 in re.finditer(r'\bself\s*\.\s*([A-Za-z_]\w*)\s*\(', t.get('text', '')):
+                    for m2 in re.finditer(r'\bself(?:\s*\.\s*\w+)*\s*\.\s*([A-Za-z_]\w*)\s*\(', t.get('text', '')):
                         if not m2.group(1).startswith('vx_'):
                             out.add(m2.group(1))
     return out
